@@ -34,7 +34,7 @@ ASSUMPTIONS = ["data compared exactly as float32(saved data)", "frames have >= 3
                ".h5 files are checked through blimpy + h5py only (no independent HDF5 reader)"]
 PROBES = ["derived_of_loaded_frame_saved", "derived_after_get_waterfall_saved", "loaded_resaved", "copy_saved", "pickled_saved",
           "format_fil", "format_h5", "descending", "ascending", "clock_jump", "refsigproc_input", "helpers_checked", "sliced_saved",
-          "dedrifted_saved", "sibling_frames_alive", "retimed_after_history", "data_rebound_after_waterfall"]
+          "dedrifted_saved", "sibling_frames_alive", "retimed_after_history", "data_rebound_after_waterfall", "saved_over_existing_file"]
 
 
 def generate(rng, tier):
@@ -71,7 +71,7 @@ def generate(rng, tier):
             # the frame's start time is re-assigned, by the library's own Cadence(t_overwrite=True) or by the user
             ops.append({"op": "retime", "fr": fr, "via": rng.choice(["cadence", "assign"]), "slew": rng.choice([0.0, 150.0, 3600.0])})
         else:
-            ops.append({"op": "save", "fr": fr, "fmt": rng.choice(["fil", "fil", "h5", "h5b"]),
+            ops.append({"op": "save", "fr": fr, "fmt": rng.choice(["fil", "fil", "h5", "h5b"]), "overwrite": rng.random() < 0.25,
                         "load_form": rng.choice(["str", "str", "path", "object", "from_waterfall"])})
     ops.append({"op": "save", "fr": rng.randrange(0, 8), "fmt": rng.choice(["fil", "fil", "h5"]),
                 "load_form": rng.choice(["str", "str", "path", "object", "from_waterfall"])})
@@ -243,6 +243,7 @@ def execute(sc, ctx):
         ctx.hit("sibling_frames_alive")
     nsave = 0
     saved_classes = set()
+    last_path = {}
     for j, op in enumerate(sc["ops"]):
         kind = op["op"]
         ctx.op(kind)
@@ -322,6 +323,10 @@ def execute(sc, ctx):
                 fmt = op["fmt"]
                 ext = "fil" if fmt == "fil" else "h5"
                 path = ctx.seams.path("s%d.%s" % (j, ext))
+                if op.get("overwrite") and last_path.get(ext):
+                    path = last_path[ext]            # save over a file written earlier (possibly by another frame)
+                    ctx.hit("saved_over_existing_file")
+                last_path[ext] = path
                 before = F.state_digest(fr)
                 if fmt == "fil":
                     fr.save_fil(path)
